@@ -1419,6 +1419,14 @@ func (b *bctx) callResult(c *ast.CallExpr, i int, at int, facts *[]LF) LF {
 		rt = b.info.TypeOf(c)
 	}
 	b.rangeFacts(a, rt, facts)
+	if fn := Callee(b.info, c); fn != nil && fn.Pkg() != nil && i == 0 && len(c.Args) >= 1 {
+		switch fn.Pkg().Path() + "." + fn.Name() {
+		case "slices.Index", "slices.IndexFunc", "bytes.IndexByte", "bytes.IndexFunc", "bytes.LastIndexByte", "strings.IndexByte", "strings.LastIndexByte", "strings.IndexFunc":
+			// library fact: -1 <= result <= len(first argument) - 1
+			ln, _ := b.sliceLen(c.Args[0], at, facts)
+			*facts = append(*facts, lfAtom(a).addConst(1), ln.plus(lfAtom(a), -1).addConst(-1))
+		}
+	}
 	b.applyEnsures(c, at, facts)
 	return lfAtom(a)
 }
